@@ -235,7 +235,7 @@ PROP = Property(
           "of arrival goes first; no exception on equal stamps; static WFQ backlog: |S_i/w_i - S_j/w_j| <= Lmax/w_i + Lmax/w_j "
           "after every exit while both classes still have packets. Non-trivial = >=2 distinct weights and >=1 service decision "
           "where stamp order and arrival order disagree."),
-    facets=[Facet("WFQ", strategy_for("WFQ"), run_stamp, quick=1500, thorough=6000,
+    facets=[Facet("WFQ", strategy_for("WFQ"), run_stamp, quick=2400, thorough=6000,
                   essential=["stamp order overrides arrival order", "equal stamps", "idle period resets virtual time",
                              "static backlog fairness checked", "many-to-one flow2class",
                              "equal stamps, different arrival instants", "creation time differs from arrival time",
